@@ -109,6 +109,11 @@ class RefV:
     def __hash__(s): return hash((s.frame, s.local, s.path))
     def sub(s, *k): return RefV(s.frame, s.local, s.path + tuple(k))
     def __repr__(s): return f'Ref({s.frame},{s.local},{s.path})'
+class RefIte:
+    """a reference that is a or b depending on c (merged states holding different references); read-only"""
+    __slots__ = ('c', 'a', 'b')
+    def __init__(s, c, a, b): s.c, s.a, s.b = c, a, b
+    def same(s, o): return isinstance(o, RefIte) and s.c.eq(o.c) and same(s.a, o.a) and same(s.b, o.b)
 class Closure:
     __slots__ = ('name', 'items')
     def __init__(s, name, caps): s.name = name; s.items = tuple(caps)
@@ -167,9 +172,11 @@ def same(a, b):
     if isinstance(a, (VecV, IterV)):
         return len(a.ents) == len(b.ents) and all(same(g, h) and same(x, y) for (g, x), (h, y) in zip(a.ents, b.ents))
     if isinstance(a, RefV): return a == b
+    if isinstance(a, RefIte): return a.same(b)
     if isinstance(a, StrV): return a.s == b.s
     if isinstance(a, FnPtr): return a.name == b.name
     if hasattr(a, 'same'): return a.same(b)
+    if type(a) is Opaque: return a.kind == b.kind and a.name == b.name and a.name is not None and (a.data is b.data or a.data == b.data or (isinstance(a.data, tuple) and a.data and a.data[0] == 'ite'))
     return False
 
 def ite(c, a, b):
@@ -182,10 +189,13 @@ def ite(c, a, b):
         return F(a.v if a.v.eq(b.v) else z3.If(c, a.v, b.v), b_ite(c, a.nan, b.nan), i_ite(c, a.inf, b.inf))
     pa, pb = isinstance(a, (bool, int)) and not isz(a), isinstance(b, (bool, int)) and not isz(b)
     if (pa or isz(a)) and (pb or isz(b)):
-        if pa and pb and not isinstance(a, bool) and not isinstance(b, bool) and a != b:
+        if pa and pb and not isinstance(a, bool) and not isinstance(b, bool) and a != b and not CONFIG.get('merge_ints'):
             raise Unmergeable('concrete integers differ')      # loop indices / lengths: such states are kept apart (indices must stay concrete)
         ab = isinstance(a, bool) or (isz(a) and z3.is_bool(a))
         return b_ite(c, a, b) if ab else i_ite(c, a, b)
+    if isinstance(a, (RefV, RefIte)) and isinstance(b, (RefV, RefIte)):
+        if same(a, b): return a
+        return RefIte(c, a, b)
     if type(a) is not type(b): raise Unmergeable(f'{type(a).__name__} vs {type(b).__name__}')
     if isinstance(a, RangeV) and not same(a, b): raise Unmergeable('loop counters differ')   # states in different iterations of a counted loop are kept apart
     if isinstance(a, Agg):
@@ -207,9 +217,17 @@ def ite(c, a, b):
             elif i < len(ea): out.append((b_and(c, ea[i][0]), ea[i][1]))
             else: out.append((b_and(b_not(c), eb[i][0]), eb[i][1]))
         return VecV(out) if isinstance(a, VecV) else IterV(out, a.kind)
-    if isinstance(a, RefV):
-        if a == b: return a
-        raise Unmergeable('ref')
+    if isinstance(a, (RefV, RefIte)) and isinstance(b, (RefV, RefIte)):
+        if same(a, b): return a
+        return RefIte(c, a, b)
     if same(a, b): return a
     if hasattr(a, 'ite'): return a.ite(c, b)
+    if type(a) is Opaque and a.kind == b.kind and a.kind in ('mesh', 'pose', 'aabb', 'verts'):
+        return Opaque(a.kind, f'ite({a.name},{b.name})', data=('ite', c, a, b))      # token chosen by a symbolic condition
     raise Unmergeable(f'{type(a).__name__}')
+
+def ite_data(c, a, b):
+    """ite for DATA values (not control state): differing concrete integers become a symbolic integer"""
+    old = CONFIG.get('merge_ints'); CONFIG['merge_ints'] = True
+    try: return ite(c, a, b)
+    finally: CONFIG['merge_ints'] = old
